@@ -724,7 +724,7 @@ def vc_ref():
     its = []
     NULL = XB.NULLVALUE
     # ---------------- Ref
-    for form in ("none", "same_class_same_buffer", "same_class_other_buffer", "other_class_same_buffer", "plain_data"):
+    for form in ("none", "same_class_same_buffer", "same_class_other_buffer", "other_class_same_buffer", "plain_data", "regenerated_class_same_buffer"):
       it = ref_env()
       its.append(it)
       try:
@@ -742,6 +742,15 @@ def vc_ref():
               val = SymObj("dict-like", {"__class__": SymObj("dict", {"__name__": DistinctName("dict")})})
           else:
               vcls = T if form.startswith("same_class") else target_class("Other", it)
+              if form.startswith("regenerated_class"):
+                  # every subscription expression (`Float64[:][:]`, `Ref[S][:]`) makes new class objects: the value's class is another
+                  # class object of the same name and the same layout whose item type is itself a regenerated (equivalent, not identical) class
+                  vcls = target_class("T", it)
+                  vcls.attrs["_has_refs"] = T.attrs["_has_refs"]
+                  for c_ in (T, vcls):
+                      ity = SymObj("MetaArray", {"__name__": DistinctName("Item")})
+                      ity.closed = True
+                      c_.attrs.update({"_itemtype": ity, "_shape": (None,), "_order": "C"})
               vbuf = buf if form.endswith("same_buffer") else XB.XBuf("otherbuf")
               vsize = fresh_int("vsize")
               val = SymObj("instance", {"__class__": vcls, "_buffer": vbuf, "_offset": vo, "_size": vsize, "_has_refs": vcls.attrs["_has_refs"],
@@ -762,7 +771,7 @@ def vc_ref():
                   ob("null_encoding", XB.W8(b.mem, o) == NULL)
                   ob("no_new_object", len(rec) == 0)
                   target = None
-              elif form == "same_class_same_buffer":
+              elif form in ("same_class_same_buffer", "regenerated_class_same_buffer"):
                   ob("alias_encoding", XB.W8(b.mem, o) == vo - o)
                   ob("no_new_object", len(rec) == 0)
                   target = vo
@@ -1481,3 +1490,5 @@ group("scalar_codec", vc_scalar_codec, [(SCAL, "NumpyScalar._to_buffer"), (SCAL,
 
 from . import types2_vc  # noqa: E402,F401  (registers more groups)
 from . import types3_vc  # noqa: E402,F401  (C19/C20 struct groups)
+from . import types4_vc  # noqa: E402,F401  (session 5: Struct._update, constructors, size accessors)
+from . import types5_vc  # noqa: E402,F401  (session 5: Array._to_buffer without a value / from a same-class object)
